@@ -87,7 +87,7 @@ class NotInExpr(BaseInExpr):
 class RegexExpr:
     def __init__(self, tokens):
         self.var, expr = tokens
-        self.regex = re.compile(expr)
+        self.regex = re.compile(expr.value)
 
     def __repr__(self):
         return f"""REGEX[{self.varname}, {self.value}]"""
@@ -103,7 +103,7 @@ class RegexExpr:
         if not value:
             return False
 
-        return self.re.match(value)
+        return self.regex.match(value)
 
 
 class ConstantString:
